@@ -73,10 +73,20 @@ theorem determine_indentation (r : Record) (b : List Line) :
 
 /-- Every inserted line is: (indentation unit)^level ++ text ++ the style's line ending — one
 indentation unit per level, so lines added to a record never mix indentation styles. -/
+-- FALSE: st = { indentation := ([13], true) } (line ending LF), t = ([], 1): the raw line is [13, 10], so
+--   mkLine st t = ⟨[], .crlf⟩, but the claimed text is [13] and the claimed ending .lf
+--   (an indentation unit ending in CR merges with the LF when the inserted text is empty).
+-- theorem inserted_line_shape (st : Style) (t : Insertable) (h : ¬ (10 : UInt8) ∈ t.1) (hcr : t.1.getLast? ≠ some 13)
+--     (hi : ¬ (10 : UInt8) ∈ st.indentation.1) (he : st.lineEnding.1 ≠ .none) :
+--     (mkLine st t).text = (List.replicate t.2 st.indentation.1).flatten ++ t.1 ∧ (mkLine st t).ending = st.lineEnding.1 :=
+--   KlogV.mkLine_shape st t h hcr hi he
+example : mkLine { indentation := ([13], true) } ([], 1) = ⟨[], .crlf⟩ := by decide
+/-- corrected: additionally the indentation unit must not end in CR (`hic`) -/
 theorem inserted_line_shape (st : Style) (t : Insertable) (h : ¬ (10 : UInt8) ∈ t.1) (hcr : t.1.getLast? ≠ some 13)
-    (hi : ¬ (10 : UInt8) ∈ st.indentation.1) (he : st.lineEnding.1 ≠ .none) :
+    (hi : ¬ (10 : UInt8) ∈ st.indentation.1) (he : st.lineEnding.1 ≠ .none)
+    (hic : st.indentation.1.getLast? ≠ some 13) :
     (mkLine st t).text = (List.replicate t.2 st.indentation.1).flatten ++ t.1 ∧ (mkLine st t).ending = st.lineEnding.1 :=
-  KlogV.mkLine_shape st t h hcr hi he
+  KlogV.mkLine_shape st t h hcr hi he hic
 
 /-- D6 witness (fixed): a tie between two styles is decided by first occurrence. -/
 example : tally [[32, 32], [9]] ([32, 32, 32, 32] : Bytes) = [32, 32] ∧ tally [[9], [32, 32]] ([32, 32, 32, 32] : Bytes) = [9] := by decide
